@@ -122,8 +122,8 @@ def run_mixture(case, R):
             R.ok(monitor)
             return
         nz = replica_noise()[which]
-        if value <= 100 * nz:
-            R.undecided(monitor, 'ill-conditioned case (mismatch within 100x replica noise)')
+        if value <= 100 * nz or nz > 100 * tol:
+            R.undecided(monitor, 'ill-conditioned case (mismatch within 100x replica noise, or replica noise > 100x tolerance)')
             return
         R.fail(monitor, key, msg + f' (replica noise {nz:.2e})', **info)
     if res[0][0] == 'raised' and res[1][0] == 'raised':
